@@ -210,6 +210,16 @@ func runC20(c *core.Ctx) {
 				spec.exts = []extEl{{0, t.Bytes(4 * (16384 + t.Intn(64)))}}
 				c.Probe("jumbo-extension")
 			}
+			if (spec.profile == profOneByte || spec.profile == profTwoByte) && len(spec.exts) > 1 && t.Chance(1, 6) {
+				// the application fills every element from ONE scratch buffer: all values are prefixes of it,
+				// start at the same address and have the same capacity
+				scratch := t.Bytes(260)
+				for i := range spec.exts {
+					spec.exts[i].val = append([]byte{}, scratch[:len(spec.exts[i].val)]...)
+				}
+				spec.aliasScratch = scratch
+				c.Probe("values-from-one-scratch-buffer")
+			}
 			if pk, ok := spec.buildx(c, t.Bool()); ok {
 				if len(spec.payload) == 0 && t.Bool() {
 					pk.Payload = nil
